@@ -1,6 +1,6 @@
 (** C05 — proofs about the persistence glue (Wal/Db.v): a clean close/reopen cycle reproduces
     the store exactly, for every history outside the finding classes of Wal/Classes.v. *)
-From GV Require Import Wal.Frame Wal.Disk Wal.Recover Wal.Db Wal.Snap Wal.Classes Wal.ProofsFrame Wal.ProofsRecover.
+From GV Require Import Wal.Frame Wal.Disk Wal.Recover Wal.Db Wal.Snap Wal.Classes Wal.Spec Wal.ProofsFrame Wal.ProofsRecover.
 From Coq Require Import Lia ZArith List Bool.
 Import ListNotations.
 Open Scope Z_scope.
@@ -424,8 +424,6 @@ Section DbProofs.
     - unfold pend. rewrite SM. reflexivity.
   Qed.
 
-  Definition cycle_exact (o : sobs) : Prop := so_after o = ROk (so_before o).
-
   (** T clean_cycle, from any state that satisfies the invariant *)
   Lemma clean_cycle_gen cfg ss : forall st log,
     Inv st log -> pend log = [] ->
@@ -481,9 +479,6 @@ Section DbProofs.
 End DbProofs.
 
 (** * Identifiers handed out after a reopen never collide with existing ones *)
-Definition ids_fresh (s : store) : Prop :=
-  Forall (fun kv => fst kv < s_nn s) (s_nodes s) /\ Forall (fun kv => fst kv < s_ne s) (s_edges s).
-
 Lemma aset_keys {V} (P : Z -> Prop) k (v : V) l :
   Forall (fun kv => P (fst kv)) l -> P k -> Forall (fun kv => P (fst kv)) (aset Z.eqb k v l).
 Proof.
